@@ -40,7 +40,8 @@ def requirements(tier):
     for name in E.ALL:
         r[f"judged:{name}/perm"] = 15
         r[f"judged:{name}/zeros"] = 15
-    r.update({"w_rank_deficient_judged": 200, "w_float32": 500, "rng_recorder_hits": 1, "judged_many_zero_columns": 60, "w_all_entries_below_norm_eps_but_s_above": 100, "w_column_major_input": 300, "w_dense_wide_matrix": 30, "w_negative_preference_entry_judged": 30})
+    r.update({"w_rank_deficient_judged": 200, "w_float32": 500, "rng_recorder_hits": 1, "judged_many_zero_columns": 60, "w_all_entries_below_norm_eps_but_s_above": 100, "w_column_major_input": 300, "w_dense_wide_matrix": 30, "w_negative_preference_entry_judged": 30,
+              "w_buffer_refilled_in_place_between_two_calls": 800})
     return r
 
 
@@ -135,6 +136,16 @@ def check_case(case, ctx):
         ctx.not_judged("nonfinite_after_cast")
         return
     eps = EPS[dname]
+    brng = np.random.default_rng([int(case["tseed"]), 8])
+    if kind != "span" and brng.random() < 0.3:
+        # caller-owned buffer: the very tensor object that is aggregated held OTHER content when it was aggregated a moment ago and
+        # has been refilled in place since (pre-allocated Jacobian buffer); A(J) must be the value for its CURRENT content
+        buf = torch.empty_like(Jt)
+        buf.copy_(torch.from_numpy(brng.standard_normal((m, n)) * max(float(np.abs(J).max()), 1e-300)).to(Jt.dtype))
+        E.run(desc, buf, seed=case["seed"])  # result (or refusal) of the decoy call is irrelevant
+        buf.copy_(Jt)
+        Jt = buf
+        ctx.count("w_buffer_refilled_in_place_between_two_calls")
     out1, err1, rec1 = E.run(desc, Jt, seed=case["seed"])
     if rec1["randperm"] or rec1["rand"] or rec1["randn"]:
         ctx.count("rng_recorder_hits")
